@@ -380,6 +380,122 @@ def r2_6b(ctx, rc):
     is read and incremented in one critical section (R9.7)."""
     from .c09 import r9_7
     r9_7(ctx, rc)
+    _slot_encoding(ctx, rc)
+
+
+def _slot_encoding(ctx, rc):
+    """The slot name is an injective function of the ticket: either the
+    ticket is formatted as a whole, or it is split into base-B digits by the
+    positional scheme ``while t >= B: digit = t % B; t //= B`` (digit before
+    quotient, one base) with the last quotient used as well.  Taking the
+    quotient first maps whole blocks of tickets to one name: a later backup
+    overwrites an earlier one and rollback restores the wrong bytes."""
+    N = _names(ctx)
+    F = N['backup']
+    prog = ctx.prog
+    # the ticket: local(s) read from the counter attribute that is
+    # incremented in this function
+    incs = {n.target.attr for n in ast.walk(F.node)
+            if isinstance(n, ast.AugAssign) and isinstance(
+                n.target, ast.Attribute)}
+    tickets = {t.id for n in ast.walk(F.node) if isinstance(n, ast.Assign)
+               and isinstance(n.value, ast.Attribute) and
+               n.value.attr in incs for t in n.targets
+               if isinstance(t, ast.Name)}
+    key = 'slot name is an injective encoding of the ticket'
+    if not tickets:
+        raise AnalysisError('backup ticket not identified in ' + F.qualname)
+    loops = [n for n in ast.walk(F.node) if isinstance(n, ast.While) and any(
+        isinstance(x, ast.Name) and x.id in tickets
+        for x in ast.walk(n.test))]
+    arith = [n for n in ast.walk(F.node)
+             if isinstance(n, (ast.BinOp, ast.AugAssign)) and isinstance(
+                 n.op, (ast.Mod, ast.FloorDiv, ast.Div, ast.RShift,
+                        ast.BitAnd)) and any(
+                 isinstance(x, ast.Name) and x.id in tickets
+                 for x in ast.walk(n))
+             and not (isinstance(n, ast.BinOp) and isinstance(
+                 n.left, ast.Constant) and isinstance(n.left.value, str))]
+    if not arith:
+        rc.ok({'encoding': 'the ticket is formatted as a whole'}, key=key)
+        return
+    if len(loops) != 1:
+        raise AnalysisError('ticket arithmetic outside the one digit loop '
+                            'in ' + F.qualname)
+    lp = loops[0]
+    t = lp.test
+    base = None
+    if isinstance(t, ast.Compare) and len(t.ops) == 1 and isinstance(
+            t.ops[0], ast.GtE) and isinstance(
+                t.comparators[0], ast.Constant):
+        base = t.comparators[0].value
+    problems = []
+    if base is None:
+        raise AnalysisError('digit loop test of %s is not "ticket >= B"' %
+                            F.qualname)
+    mod_i = div_i = None
+    for i, st in enumerate(lp.body):
+        for n in ast.walk(st):
+            if isinstance(n, ast.BinOp) and isinstance(n.op, ast.Mod) and \
+                    isinstance(n.left, ast.Name) and n.left.id in tickets:
+                if mod_i is None:
+                    mod_i = i
+                if not (isinstance(n.right, ast.Constant) and
+                        n.right.value == base):
+                    problems.append('digit taken modulo %s in a loop that '
+                                    'runs while ticket >= %s' % (
+                                        ast.unparse(n.right), base))
+            q = None
+            if isinstance(n, ast.AugAssign) and isinstance(
+                    n.op, ast.FloorDiv) and isinstance(
+                        n.target, ast.Name) and n.target.id in tickets:
+                q = n.value
+            elif isinstance(n, ast.Assign) and isinstance(
+                    n.value, ast.BinOp) and isinstance(
+                        n.value.op, ast.FloorDiv) and isinstance(
+                            n.value.left, ast.Name) and \
+                    n.value.left.id in tickets and any(
+                        isinstance(x, ast.Name) and x.id in tickets
+                        for x in n.targets):
+                q = n.value.right
+            if q is not None:
+                if div_i is None:
+                    div_i = i
+                if not (isinstance(q, ast.Constant) and q.value == base):
+                    problems.append('quotient by %s in a loop that runs '
+                                    'while ticket >= %s' % (
+                                        ast.unparse(q), base))
+            if isinstance(n, ast.Call) and isinstance(
+                    n.func, ast.Name) and n.func.id == 'divmod':
+                mod_i = div_i = i
+    if mod_i is None or div_i is None:
+        raise AnalysisError('digit loop of %s has no digit/quotient step' %
+                            F.qualname)
+    if div_i < mod_i:
+        problems.append('the quotient step comes before the digit is taken: '
+                        'every block of %s consecutive tickets gets the same '
+                        'name' % base)
+    # the most significant digit (the last quotient) is part of the name
+    after = False
+    used_after = False
+    for st in ast.walk(F.node):
+        pass
+    body_ids = {id(x) for x in ast.walk(lp)}
+    for n in ast.walk(F.node):
+        if isinstance(n, ast.Name) and n.id in tickets and isinstance(
+                n.ctx, ast.Load) and id(n) not in body_ids and \
+                n.lineno > lp.end_lineno:
+            used_after = True
+    if not used_after:
+        problems.append('the last quotient is not part of the name')
+    if problems:
+        rc.violation('slot-encoding | ' + F.qualname,
+                     'the backup slot name is not an injective encoding of '
+                     'the ticket: ' + '; '.join(problems),
+                     prog.loc(F, lp), key=key)
+    else:
+        rc.ok({'encoding': 'base-%s digits, digit before quotient' % base},
+              key=key)
 
 
 def r2_7(ctx, rc):
